@@ -503,15 +503,16 @@ Brief == [mode |-> o.mode, cls |-> o.cls, le |-> o.le, machine |-> o.machine, os
           mpos |-> o.mpos, hk |-> o.hk, nb |-> o.nb, so |-> o.so, ld |-> o.ld, ntags |-> Len(AllTags(o))]
 \* three keyed lines per object (a line must stay below the 8 KB an append writes atomically)
 Key == [b |-> Brief, fid |-> o.fid, tid |-> o.tid, sn |-> [i \in 1..Len(o.syms) |-> o.syms[i].nm]]
-CaseA == LET a == Split(ImWith)   b == Split(ImStripped) IN
+CaseA(a, b) ==
          [key |-> Key, part |-> "A", eh1 |-> a.eh, eh2 |-> b.eh, common |-> a.common,
           ix |-> [dyn |-> Ix(o).dyn, sym |-> Ix(o).sym, str |-> Ix(o).str, pdyn |-> mem.pdyn.index, nload |-> Len(mem.loads)]]
-CaseS == [key |-> Key, part |-> "S", sh |-> Split(ImWith).sh]
+CaseS(a) == [key |-> Key, part |-> "S", sh |-> a.sh]
 CaseB == [key |-> Key, part |-> "B", view |-> DynView]
 \* (the state at the end of the segment read has one predecessor: every object is written once)
 Emit == /\ (Done /\ rd.view = "seg" /\ rd.pc = "done" =>
-               /\ CSVWrite("%1$s", <<ToJson(CaseA)>>, IOEnv.OUT)
-               /\ CSVWrite("%1$s", <<ToJson(CaseS)>>, IOEnv.OUT)
+               LET a == Split(ImWith)   b == Split(ImStripped) IN
+               /\ CSVWrite("%1$s", <<ToJson(CaseA(a, b))>>, IOEnv.OUT)
+               /\ CSVWrite("%1$s", <<ToJson(CaseS(a))>>, IOEnv.OUT)
                /\ CSVWrite("%1$s", <<ToJson(CaseB)>>, IOEnv.OUT))
         \* the name tables and header layouts (a few initial states; the driver takes the first)
         /\ (phase = "build" /\ o.cls = 64 /\ o.le /\ o.variant = "match" /\ o.machine = 62 /\ (o.mode = "tags" => Len(o.free) = 0)
@@ -532,10 +533,10 @@ ViewsAgree == \A v \in {"sec", "seg"} : Finished(v) => rd.sc.out = ExpTags /\ rd
 CountExact == /\ (Finished("sec") => rd.cnt = [det |-> TRUE, n |-> mem.n])
               /\ (Finished("seg") => rd.cnt.det = CountDet(o) /\ (rd.cnt.det => rd.cnt.n = mem.n) /\ rd.cnt.n <= mem.n)
 \* the string table the section link designates is the one DT_STRTAB addresses
-StrtabAgree == Done => OffOfTag(ExpTags, DtStrtab) = mem.offs[Ix(o).str] /\ mem.im.secs[Ix(o).dyn].link.n = Ix(o).str
+StrtabAgree == Done /\ rd.view = "idle" => OffOfTag(ExpTags, DtStrtab) = mem.offs[Ix(o).str] /\ mem.im.secs[Ix(o).dyn].link.n = Ix(o).str
 \* a translated pointer lies inside the file-backed part of exactly the PT_LOAD that maps it, at the same distance from its start
 PtrInsideSegment ==
-  Done => LET ts == ViewTags(o) IN
+  Done /\ rd.view = "idle" => LET ts == ViewTags(o) IN
           \A i \in 1..Len(ts) : IsPtr(ts[i]) =>
              LET a == ValDigits(o, mem.P, ts[i])   off == PtrToOffset(mem.loads, a) IN
              /\ off = TargetOff(o, ts[i])
